@@ -160,6 +160,32 @@ func c28TalkX(addr string, xbase uint32) (stage string, err error) {
 	if err != nil || g.Status != nfsx.OK || g.Attr.Type != nfsx.TypeDir {
 		return "GETATTR", fmt.Errorf("GETATTR of the mounted handle: %+v, %v", g, err)
 	}
+	// Another conformant client comes and goes on a connection of its own (MNT /, UMNT /); the first client's mount
+	// is its own: GETATTR of the handle it was given is answered as before.
+	other, err := drv.Dial(addr, 8*time.Second)
+	if err != nil {
+		return "dial (second client)", err
+	}
+	defer other.Close()
+	cred2 := nfsx.AuthSys(2, "other", 0, 0, nil)
+	for k, proc := range []uint32{nfsx.MountMnt, nfsx.MountUmnt} {
+		xid := xbase + 21 + uint32(k)
+		rec, err := other.RoundTrip(nfsx.Call(xid, nfsx.ProgMount, 3, proc, cred2, nfsx.AuthNone(), (&nfsx.W{}).Str("/").B), 8*time.Second)
+		if err != nil {
+			return "MNT/UMNT of a second client", err
+		}
+		if rp2, err := nfsx.ParseReply(rec); err != nil || rp2.Xid != xid || rp2.Stat != nfsx.MsgAccepted || rp2.AcceptStat != nfsx.AcceptSuccess {
+			return "MNT/UMNT of a second client", fmt.Errorf("reply %+v, %v", rp2, err)
+		}
+	}
+	rp, err = rt(xbase+14, nfsx.ProgNFS, 3, nfsx.ProcGetattr, nfsx.ArgsFh(m.Fh))
+	if err != nil {
+		return "GETATTR after another client's MNT/UMNT", err
+	}
+	g, err = nfsx.DecodeNFS3(nfsx.ProcGetattr, rp.Body)
+	if err != nil || g.Status != nfsx.OK || g.Attr.Type != nfsx.TypeDir {
+		return "GETATTR after another client's MNT/UMNT", fmt.Errorf("GETATTR of the mounted handle: %+v, %v", g, err)
+	}
 	return "", nil
 }
 
